@@ -6,8 +6,8 @@ import (
 	_ "crypto/sha1"
 	_ "crypto/sha256"
 	"crypto/sha512"
-	_ "golang.org/x/crypto/sha3" // links SHA3-*: SHA3-384 has the same output size as SHA-384
 	"fmt"
+	_ "golang.org/x/crypto/sha3" // links SHA3-*: SHA3-384 has the same output size as SHA-384
 	"math"
 
 	"github.com/google/go-tdx-guest/rtmr"
@@ -291,7 +291,7 @@ func init() {
 		Rule: "per run a history of 1-12 extend requests (ExtendDigestClient / ExtendEventLogClient; index in {-2^31,-1,0..5,2^31-1}, digest length {0,1,47,48,49,64}, hash {SHA-1,SHA-256,SHA-384,SHA-512,0}, log {nil,empty,1 B,1 MiB,random}) against a model TSM (configfsi.Client) that starts empty or with pre-existing entries (same index / other / unbound / unreadable index / all four) and implements register extension, showing an unbound entry's index as a read error / empty / -1 and a bound one with or without trailing newline (tape); every third run injects an I/O error at the k-th client call. " +
 			"distinct = (call kind, index bucket, validity, fault fired, outcome)",
 		Assumptions: []string{"the model TSM refuses a second entry for an index (EBUSY), as configfs-tsm does", "linuxtsm.MakeClient (real configfs) is the far side of the seam and is not exercised"},
-		RealStub: map[string]string{"rtmr.ExtendDigestClient / ExtendEventLogClient": "real", "go-configfs-tsm rtmr.ExtendDigest": "real", "configfs-tsm": "stub (world.TSM model)"},
+		RealStub:    map[string]string{"rtmr.ExtendDigestClient / ExtendEventLogClient": "real", "go-configfs-tsm rtmr.ExtendDigest": "real", "configfs-tsm": "stub (world.TSM model)"},
 		Runs: func(tier string) int {
 			if tier == "thorough" {
 				return 200000
